@@ -346,6 +346,13 @@ def r4_wildcard(ctx):
         else:
             ok = start[0] == 'bin' and start[1] == 'Add' and start[3] == ('int', 1)
             ctx.check(ok, 'literal-segments', 'a literal key of i+1 joined segments consumes exactly i+1 path segments', s.where(), show(start))
+            # every prefix length is tried, and every named compartment found on the way applies (not only the first / longest one)
+            hdr = innermost_loop(f, s.b)
+            if hdr is not None:
+                ctx.check(loop_exits_only_on_exhaustion(f, hdr), 'all-prefixes-visited', 'the scan over the path prefixes runs to the end: every matching named compartment is applied', s.where())
+            elif any(is_next(x) for x in walk(path)):
+                # the descent uses a loop item but is not part of the loop body proper: it sits on a way out of the loop (`.. ; break`)
+                ctx.violation('all-prefixes-visited', 'the scan over the path prefixes stops at the first named compartment it finds', s.where())
             # the looked-up key is the join of path[0..=i] with '.'
             key = [x for x in walk(base) if x[0] == 'call' and x[1].endswith('Mapping::get')]
             ctx.check(bool(key), 'literal-lookup', 'literal keys are looked up exactly (map.get), not by prefix', s.where())
@@ -439,7 +446,34 @@ def r5_compartments_merged(ctx):
     ctx.check(len(ins) >= 1, 'leaf-inserted', 'the entry is stored under the key remainder behind the wildcard', f.where())
 
 
+def r6_units(ctx):
+    """key text is cut at byte offsets: a byte length (`key.len()`) is never used as a number of characters (`chars().skip(n)` / `nth` /
+    `take`), nor a character count as a byte offset - module names with multi-byte characters would get truncated property names"""
+    ctx.set_rule('C17.R6')
+    P = ctx.P
+    fs = [f for f in P.fn_list if f.key.startswith(('des_net_utils::props::', '<des_net_utils::props::')) and f.kind != 'promoted']
+    ctx.floor('functions of the props module', len(fs), 10)
+    n = 0
+    for f in fs:
+        for s in f.calls():
+            last = s.name.split('::')[-1]
+            if last in ('skip', 'nth', 'take', 'step_by') and 'Iterator' in s.name and len(s.args) == 2:
+                src = f.expr_operand(s.args[0], s.b, 'T')
+                if any(x[0] == 'call' and x[1].endswith(('::chars', '::char_indices')) for x in walk(src)):
+                    n += 1
+                    amt = f.expr_operand(s.args[1], s.b, 'T')
+                    ctx.check(not any(x[0] == 'call' and x[1].endswith(('str::len', 'String::len')) for x in walk(amt)), 'byte-length-as-char-count:%s' % f.key.split('::')[-1],
+                              'a byte length is not used to count characters', s.where(), show(amt)[:100])
+            if last in ('index', 'split_at', 'get', 'truncate', 'split_off') and ('str' in s.name or 'String' in s.name) and len(s.args) > 1:
+                t = f.expr_operand(s.args[1], s.b, 'T')
+                n += 1
+                ctx.check(not any(x[0] == 'call' and x[1].split('::')[-1] == 'count' and any(y[0] == 'call' and y[1].endswith(('::chars', '::char_indices')) for y in walk(x)) for x in walk(t)),
+                          'char-count-as-byte-offset:%s' % f.key.split('::')[-1], 'a character count is not used as a byte offset', s.where())
+    ctx.ok('text offsets in the props module inspected: %d' % n, None)
+
+
 def run(ctx):
+    r6_units(ctx)
     r5_compartments_merged(ctx)
     r1_segment_aligned(ctx)
     r2_include_order(ctx)
